@@ -81,11 +81,22 @@ def m_type(x, *a):
 _WS = None
 
 
+def _small_base(base):
+    """int(text, base) with a symbolic base: bases outside 2..36 (and 0) all raise the same ValueError, so only the
+    valid ones are told apart"""
+    z = zint(base)
+    if SymBool(z3.Or(z < 2, z > 36)):
+        if SymBool(z == 0):
+            return 0
+        return 99       # any invalid base
+    return concretize_int(base, 2, 36, 'int() base')
+
+
 def _int_of_symstr(s, base=10):
     """int(str) for a symbolic string: decimal ASCII digits with optional sign; characters outside
     every class int() could accept give ValueError; the remaining (rare) classes are unmodelled."""
     if isinstance(base, (SymInt, SymBool)):
-        base = concretize_int(base, -2, 40, 'int() base')
+        base = _small_base(base)
     if base != 10 and not (2 <= base <= 36):
         raise ValueError('int() base must be >= 2 and <= 36, or 0')
     cps = list(s.cps)
@@ -280,7 +291,7 @@ def m_int(*a, **kw):
         b = a[1]
         if isinstance(b, SymFloat):
             raise TypeError("'float' object cannot be interpreted as an integer")
-        b = concretize_int(b, -2, 40, 'int() base')
+        b = _small_base(b)
         return int(x, b)
     if symbolic(x):
         f = getattr(x, '__sym_int__', None)
@@ -470,6 +481,14 @@ def m_complex(*a):
     if len(a) == 2 and all(is_numlike(v) for v in a):
         return SymComplex(a[0], a[1])
     if len(a) == 1 and isinstance(a[0], SymStr):
+        cls = [classify_numchar(c, 10) for c in a[0].cps]
+        if any(k == 'other' for k, _ in cls) or not any(k == 'digit' for k, _ in cls):
+            raise ValueError('complex() arg is a malformed string')
+        if all(k in ('digit', 'dot', 'sign') for k, _ in cls):
+            try:
+                return SymComplex(_float_of_symstr(a[0]), 0.0)
+            except ValueError:
+                raise ValueError('complex() arg is a malformed string')
         raise Unmodelled('complex(symbolic str)')
     if any(isinstance(v, (SymStr, str)) for v in a):
         if len(a) == 2:
@@ -1022,6 +1041,8 @@ def sym_call(f, *a, **kw):
             if tf is type:
                 if f in (list, tuple, dict, set, frozenset):
                     return f(*a, **kw)
+                if issubclass(f, BaseException):
+                    return f(*a, **kw)      # exception objects just carry their arguments
                 if (getattr(f, '__module__', '') or '').split('.')[0] in NATIVE_TOPS:
                     return f(*a, **kw)   # classes of the repository / harness are ordinary python
             q = getattr(f, '__qualname__', repr(f))
